@@ -38,10 +38,11 @@ Open Scope Z_scope.
 Record variant := mkVariant {
   v_strip : bool;          (* DLEQ stripped from request inputs *)
   v_restore_delta : bool;  (* Restore increments by the batch delta *)
-  v_sigall_inc : bool      (* the SIG_ALL branch of swapToTrusted advances its counter *)
+  v_sigall_inc : bool;     (* the SIG_ALL branch of swapToTrusted advances its counter *)
+  v_keyset_ctr : bool      (* getActiveKeyset saves a keyset with its stored counter, not the one in memory *)
 }.
-Definition repaired : variant := mkVariant true true true.
-Definition unrepaired : variant := mkVariant false false false.
+Definition repaired : variant := mkVariant true true true true.
+Definition unrepaired : variant := mkVariant false false false false.
 
 (* ------------------------------------------------------------------ data *)
 
@@ -76,7 +77,9 @@ Record request := mkReq {
   rq_mint : Z;
   rq_in : list rin;
   rq_out : list wproof;    (* blinded messages: only B_ (origin), amount, keyset id *)
-  rq_ys : list wproof      (* Y = hash_to_curve(secret) of these proofs *)
+  rq_ys : list wproof;     (* Y = hash_to_curve(secret) of these proofs *)
+  rq_stored : Z            (* ghost: the stored counter of the keyset of the outputs, read from the
+                              wallet store when the request left (restore: start of the batch) *)
 }.
 
 Definition mk_input (v : variant) (p : wproof) : rin :=
@@ -202,6 +205,22 @@ Definition post (r : request) : M unit :=
 Definition silent {X} (m : M X) : M X :=
   fun w => match m (set_run w (-1) (effs w) (reqs w) (trace w)) with
            | (r, w1) => (r, set_run w1 (budget w) (effs w) (reqs w) (trace w1))
+           end.
+
+(* a request whose outputs are derived from the stored counter of keyset (m, ks) of wallet i:
+   counterForKeyset, createBlindedMessages and the POST follow each other with no store write in
+   between, so the request is built from the counter that is stored when it leaves *)
+Definition counter_in (w : world) (i m ks : Z) : Z :=
+  match find (fun k => (k_mint k =? m) && (k_ks k =? ks)) (w_ks (nth (Z.to_nat i) (wallets w) (mkW 0 [] [] [] [] [] []))) with
+  | Some k => k_ctr k
+  | None => 0
+  end.
+Definition post_at (i m ks : Z) (mk : Z -> request) : M request :=
+  fun w => let r := mk (counter_in w i m ks) in
+           match post r w with
+           | (ROk _, w1) => (ROk r, w1)
+           | (RFail, w1) => (RFail, w1)
+           | (RCut, w1) => (RCut, w1)
            end.
 
 (* labels *)
@@ -421,7 +440,7 @@ Definition add_mint (i m : Z) : M unit :=
   upd_wallet i (fun x => put_view x (mkView m a (fee_of mt a) (inactive_list (mn_fees mt)) 0)).
 
 (* getActiveKeyset: (keyset, fee). For a known mint the view follows a rotation / a changed fee. *)
-Definition get_active_keyset (i m : Z) : M (Z * Z) :=
+Definition get_active_keyset (vr : variant) (i m : Z) : M (Z * Z) :=
   doM x <- get_wallet i ;
   doM mt <- get_mint m ;
   let a := active_ks mt in
@@ -432,13 +451,15 @@ Definition get_active_keyset (i m : Z) : M (Z * Z) :=
         if vw_fee v =? fee_of mt a then ret (a, vw_fee v)
         else
           doM_ eff eSaveKeyset ;
-          doM_ upd_wallet i (fun x => put_view (put_ks x (mkKs m a true (fee_of mt a) (vw_memctr v)))
-                                          (mkView m a (fee_of mt a) (vw_inact v) (vw_memctr v))) ;
+          let c := if v_keyset_ctr vr then counter_of x m a else vw_memctr v in
+          doM_ upd_wallet i (fun x => put_view (put_ks x (mkKs m a true (fee_of mt a) c))
+                                          (mkView m a (fee_of mt a) (vw_inact v) c)) ;
           ret (a, fee_of mt a)
       else
         (* the previous active keyset is saved from memory (with the counter it had when it was loaded) *)
         doM_ eff eSaveKeyset ;
-        doM_ upd_wallet i (fun x => put_ks x (mkKs m (vw_act v) false (vw_fee v) (vw_memctr v))) ;
+        doM_ upd_wallet i (fun x => put_ks x (mkKs m (vw_act v) false (vw_fee v)
+                                                   (if v_keyset_ctr vr then counter_of x m (vw_act v) else vw_memctr v))) ;
         doM x1 <- get_wallet i ;
         match find_ks x1 m a with
         | Some k =>
@@ -551,12 +572,40 @@ Fixpoint xsort (fuel : nat) (l : list wproof) : list wproof :=
   end.
 Definition sort_outputs (l : list wproof) : list wproof := xsort (length l) l.
 
+(* the outputs of swapToSend: the send part (from the counter, or random secrets for a spending
+   condition), then the change part from the counter, sorted by cashu.SortBlindedMessages *)
+Definition send_outputs (i m aks lock to : Z) (sigall needsig : bool) (nonce0 : Z) (split change_split : list Z) (ctr : Z)
+  : list wproof :=
+  let send := if lock =? 0 then derive i m aks ctr split else derive_locked m aks nonce0 lock to sigall needsig split in
+  let ctr1 := if lock =? 0 then ctr + Z.of_nat (length split) else ctr in
+  sort_outputs (send ++ derive i m aks ctr1 change_split).
+
+(* the tail of swapToSend: outputs from the stored counter, POST, delete the inputs, store the change,
+   advance the counter by the number of outputs that were derived from it *)
+Definition send_submit (vr : variant) (i m aks lock to : Z) (sigall needsig : bool) (nonce0 : Z)
+           (inputs : list wproof) (split change_split : list Z) : M (list wproof) :=
+  doM r <- post_at i m aks (fun ctr =>
+             mkReq lSwap m (map (mk_input vr) inputs)
+                   (send_outputs i m aks lock to sigall needsig nonce0 split change_split ctr) [] ctr) ;
+  let outs := rq_out r in
+  doM mt <- get_mint m ;
+  match mint_swap mt inputs outs with
+  | None => fail
+  | Some mt1 =>
+      doM_ put_mint m mt1 ;
+      doM_ del_proofs i inputs ;
+      let '(to_send, rest) := pick_send split outs in
+      doM_ save_proofs i rest ;
+      doM_ inc_counter i m aks ((if lock =? 0 then Z.of_nat (length split) else 0) + Z.of_nat (length change_split)) ;
+      ret to_send
+  end.
+
 (* swapToSend(amount, mint view copy, spending condition, includeFees) -> proofs to send.
    lock: 0 none; (lock, to, sigall, needsig) describe the spending condition. *)
 Definition swap_to_send (vr : variant) (i : Z) (v : view) (amount : Z) (include_fees : bool)
            (lock to : Z) (sigall needsig : bool) : M (list wproof) :=
   let m := vw_mint v in
-  doM af <- get_active_keyset i m ;
+  doM af <- get_active_keyset vr i m ;
   doM x <- get_wallet i ;
   let '(aks, afee) := af in
   let split_for_send := Select.amount_split amount in
@@ -566,29 +615,12 @@ Definition swap_to_send (vr : variant) (i : Z) (v : view) (amount : Z) (include_
   | Select.Ok sel =>
       let inputs := back x v sel in
       let split := Select.sortZ (split_for_send ++ Select.amount_split fees_to_receive) in
-      let ctr := counter_of x m aks in
       doM w <- get ;
-      let send := if lock =? 0 then derive i m aks ctr split
-                  else derive_locked m aks (nonce w) lock to sigall needsig split in
       doM_ (if lock =? 0 then ret tt else modify (fun w => set_nonce w (nonce w + Z.of_nat (length split)))) ;
-      let ctr1 := if lock =? 0 then ctr + Z.of_nat (length split) else ctr in
       let fees := view_fees v inputs in
       let change_amt := Select.sub64 (Select.sub64 (sum_amt inputs) amount1) fees in
       let change_split := if 0 <? change_amt then wallet_split x m change_amt else [] in
-      let change := derive i m aks ctr1 change_split in
-      let outs := sort_outputs (send ++ change) in
-      doM_ post (mkReq lSwap m (map (mk_input vr) inputs) outs []) ;
-      doM mt <- get_mint m ;
-      match mint_swap mt inputs outs with
-      | None => fail
-      | Some mt1 =>
-          doM_ put_mint m mt1 ;
-          doM_ del_proofs i inputs ;
-          let '(to_send, rest) := pick_send (map wp_amt send) outs in
-          doM_ save_proofs i rest ;
-          doM_ inc_counter i m aks ((if lock =? 0 then Z.of_nat (length send) else 0) + Z.of_nat (length change)) ;
-          ret to_send
-      end
+      send_submit vr i m aks lock to sigall needsig (nonce w) inputs split change_split
   | _ => fail
   end.
 
@@ -617,7 +649,7 @@ Definition the_view (i m : Z) : M view :=
 Definition invoice_limit : Z := 2 ^ 50.
 Definition request_mint (i m amount : Z) : M Z :=
   doM _v <- the_view i m ;
-  doM_ post (mkReq lMintQuote m [] [] []) ;
+  doM_ post (mkReq lMintQuote m [] [] [] 0) ;
   doM_ guard (amount <? invoice_limit) ;
   doM mt <- get_mint m ;
   let '(id, mt1) := mint_new_quote mt amount in
@@ -629,8 +661,23 @@ Definition request_mint (i m amount : Z) : M Z :=
 Definition set_wq_state (i m id st : Z) : M unit :=
   upd_wallet i (fun x => w_set_mq x (map (fun q => if (wq_mint q =? m) && (wq_id q =? id) then mkWMQ m id (wq_amt q) st else q) (w_mq x))).
 
+(* the tail of MintTokens: outputs from the stored counter, POST, store the proofs, advance the counter *)
+Definition mint_submit (i m id aks : Z) (split : list Z) : M Z :=
+  doM r <- post_at i m aks (fun ctr => mkReq lMint m [] (derive i m aks ctr split) [] ctr) ;
+  let outs := rq_out r in
+  doM mt <- get_mint m ;
+  match mint_mint mt id outs with
+  | None => fail
+  | Some mt1 =>
+      doM_ put_mint m mt1 ;
+      doM_ save_proofs i outs ;
+      doM_ inc_counter i m aks (Z.of_nat (length outs)) ;
+      doM_ eff eSaveMintQuote ; doM_ set_wq_state i m id 3 ;
+      ret (sum_amt outs)
+  end.
+
 (* MintTokens *)
-Definition mint_tokens (i m id : Z) : M Z :=
+Definition mint_tokens (vr : variant) (i m id : Z) : M Z :=
   doM x <- get_wallet i ;
   match find (fun q => (wq_mint q =? m) && (wq_id q =? id)) (w_mq x) with
   | None => fail
@@ -645,31 +692,19 @@ Definition mint_tokens (i m id : Z) : M Z :=
                        doM_ eff eSaveMintQuote ; doM_ set_wq_state i m id st ; ret st
                    end) ;
       doM_ guard (st =? 1) ;
-      doM af <- get_active_keyset i m ;
+      doM af <- get_active_keyset vr i m ;
       let '(aks, _) := af in
       doM x1 <- get_wallet i ;
-      let ctr := counter_of x1 m aks in
-      let outs := derive i m aks ctr (wallet_split x1 m (wq_amt q)) in
-      doM_ post (mkReq lMint m [] outs []) ;
-      doM mt <- get_mint m ;
-      match mint_mint mt id outs with
-      | None => fail
-      | Some mt1 =>
-          doM_ put_mint m mt1 ;
-          doM_ save_proofs i outs ;
-          doM_ inc_counter i m aks (Z.of_nat (length outs)) ;
-          doM_ eff eSaveMintQuote ; doM_ set_wq_state i m id 3 ;
-          ret (sum_amt outs)
-      end
+      mint_submit i m id aks (wallet_split x1 m (wq_amt q))
   end.
 
 Definition settle_at (m id : Z) : M unit := doM mt <- get_mint m ; put_mint m (settle_quote mt id).
 
 (* the harness operation: RequestMint, the invoice is paid from outside (or not), MintTokens *)
-Definition op_mint (i m amount : Z) (paid : bool) : M Z :=
+Definition op_mint (vr : variant) (i m amount : Z) (paid : bool) : M Z :=
   doM id <- request_mint i m amount ;
   doM_ (if paid then settle_at m id else ret tt) ;
-  mint_tokens i m id.
+  mint_tokens vr i m id.
 
 Definition push_token (m : Z) (dleq : bool) (ps : list wproof) : M unit :=
   modify (fun w => set_tokens w (tokens w ++ [mkTok m (map (set_dleq dleq) ps)])).
@@ -693,15 +728,22 @@ Definition op_send_locked (vr : variant) (i m amount : Z) (include_fees : bool) 
 Definition swap_in (vr : variant) (i : Z) (v : view) (ins : list wproof) : M (list wproof) :=
   doM x <- get_wallet i ;
   let m := vw_mint v in
-  let ctr := counter_of x m (vw_act v) in
   let fees := view_fees v ins in
-  let outs := derive i m (vw_act v) ctr (wallet_split x m (Select.sub64 (sum_amt ins) fees)) in
-  doM_ post (mkReq lSwap m (map (mk_input vr) ins) outs []) ;
+  let split := wallet_split x m (Select.sub64 (sum_amt ins) fees) in
+  doM r <- post_at i m (vw_act v) (fun ctr => mkReq lSwap m (map (mk_input vr) ins) (derive i m (vw_act v) ctr split) [] ctr) ;
+  let outs := rq_out r in
   doM mt <- get_mint m ;
   match mint_swap mt ins outs with
   | None => fail
   | Some mt1 => doM_ put_mint m mt1 ; ret outs
   end.
+
+(* the tail of Receive / ReceiveHTLC / ReclaimUnspentProofs: swap, advance the counter, store the proofs *)
+Definition swap_store (vr : variant) (i : Z) (v : view) (ins : list wproof) : M Z :=
+  doM outs <- swap_in vr i v ins ;
+  doM_ inc_counter i (vw_mint v) (vw_act v) (Z.of_nat (length outs)) ;
+  doM_ save_proofs i outs ;
+  ret (sum_amt outs).
 
 (* the float64 arithmetic of swapProofs, in rationals: amount_k = proofsAmount * 0.99 * 0.98 * ... *)
 Fixpoint swap_proofs_quotes (fuel : nat) (i from to : Z) (num den pct fees total : Z) : M (Z * Z * Z) :=
@@ -710,7 +752,7 @@ Fixpoint swap_proofs_quotes (fuel : nat) (i from to : Z) (num den pct fees total
   | S f =>
       let req := Select.sub64 (num / den) fees in
       doM id <- request_mint i to req ;
-      doM_ post (mkReq lMeltQuote from [] [] []) ;
+      doM_ post (mkReq lMeltQuote from [] [] [] 0) ;
       doM mf <- get_mint from ;
       match mint_melt_quote from mf (to, id) req with
       | None => fail
@@ -728,9 +770,9 @@ Definition swap_proofs (vr : variant) (i : Z) (vfrom : view) (to : Z) (ps : list
   let fees := view_fees vfrom ps in
   doM q <- swap_proofs_quotes 40 i from to (sum_amt ps * 99) 100 99 fees (sum_amt ps) ;
   let '(id, lid, _) := q in
-  doM_ post (mkReq lMelt from (map (mk_input vr) ps) [] []) ;
+  doM_ post (mkReq lMelt from (map (mk_input vr) ps) [] [] 0) ;
   doM st <- mint_melt from lid ps ;
-  if st =? 2 then mint_tokens i to id else fail.
+  if st =? 2 then mint_tokens vr i to id else fail.
 
 (* the view Receive builds for a token mint the wallet does not know *)
 Definition foreign_view (m : Z) : M view :=
@@ -749,7 +791,7 @@ Definition op_receive (vr : variant) (i t : Z) (to_trusted : bool) : M Z :=
   doM tk <- token_of t ;
   let ps := t_proofs tk in
   let m := t_mint tk in
-  doM af <- get_active_keyset i m ;
+  doM af <- get_active_keyset vr i m ;
   doM_ guard (dleq_ok (fst af) ps) ;
   let first := hd (mkWP 0 0 0 0 0 false 0 (-1) false false) ps in
   doM_ guard (negb (wp_lock first =? 1) || (wp_to first =? i)) ;
@@ -767,17 +809,14 @@ Definition op_receive (vr : variant) (i t : Z) (to_trusted : bool) : M Z :=
   else
     doM_ (if known then ret tt else add_mint i m) ;
     doM v <- the_view i m ;
-    doM outs <- swap_in vr i v ps ;
-    doM_ inc_counter i m (vw_act v) (Z.of_nat (length outs)) ;
-    doM_ save_proofs i outs ;
-    ret (sum_amt outs).
+    swap_store vr i v ps.
 
 (* ReceiveHTLC *)
 Definition op_receive_htlc (vr : variant) (i t : Z) : M Z :=
   doM tk <- token_of t ;
   let ps := t_proofs tk in
   let m := t_mint tk in
-  doM af <- get_active_keyset i m ;
+  doM af <- get_active_keyset vr i m ;
   doM_ guard (dleq_ok (fst af) ps) ;
   let first := hd (mkWP 0 0 0 0 0 false 0 (-1) false false) ps in
   doM_ guard (wp_lock first =? 2) ;
@@ -785,10 +824,7 @@ Definition op_receive_htlc (vr : variant) (i t : Z) : M Z :=
   doM x <- get_wallet i ;
   doM_ (match find_view x m with Some _ => ret tt | None => add_mint i m end) ;
   doM v <- the_view i m ;
-  doM outs <- swap_in vr i v ps ;
-  doM_ inc_counter i m (vw_act v) (Z.of_nat (length outs)) ;
-  doM_ save_proofs i outs ;
-  ret (sum_amt outs).
+  swap_store vr i v ps.
 
 (* calculateBlankOutputs: max(ceil(log2 feeReserve), 1), 0 for no reserve *)
 Fixpoint log2_up_nat (fuel : nat) (n acc pow : Z) : Z :=
@@ -841,11 +877,10 @@ Definition melt (vr : variant) (i m id : Z) : M Z :=
       doM v <- the_view i m ;
       doM ps <- get_proofs_for_amount vr i v (wl_amt q + wl_res q) true ;
       doM_ add_pending i eAddPendingQuote ps (qcode m id) ;
-      doM af <- get_active_keyset i m ;
-      doM x1 <- get_wallet i ;
-      let ctr := counter_of x1 m (fst af) in
-      let blanks := derive i m (fst af) ctr (repeat 0 (Z.to_nat (blank_outputs (wl_res q)))) in
-      doM_ post (mkReq lMelt m (map (mk_input vr) ps) blanks []) ;
+      doM af <- get_active_keyset vr i m ;
+      doM _r <- post_at i m (fst af) (fun ctr =>
+                  mkReq lMelt m (map (mk_input vr) ps)
+                        (derive i m (fst af) ctr (repeat 0 (Z.to_nat (blank_outputs (wl_res q))))) [] ctr) ;
       doM st <- mint_melt m id ps ;
       doM_ (if st =? 0 then doM_ save_proofs i ps ; del_pending_quote i (qcode m id)
        else if st =? 1 then doM_ eff eSaveMeltQuote ; set_wl_state i m id 1
@@ -859,7 +894,7 @@ Definition op_melt (vr : variant) (i m sat out : Z) : M Z :=
   doM w <- get ;
   let inv := (-1, nonce w) in
   doM_ modify (fun w => set_nonce w (nonce w + 1)) ;
-  doM_ post (mkReq lMeltQuote m [] [] []) ;
+  doM_ post (mkReq lMeltQuote m [] [] [] 0) ;
   doM mt <- get_mint m ;
   match mint_melt_quote m mt inv sat with
   | None => fail
@@ -881,7 +916,7 @@ Definition remove_spent_at (i : Z) (v : view) : M unit :=
   let pp := pending_at x v in
   if (Z.of_nat (length pp) =? 0) then ret tt
   else
-    doM_ post (mkReq lCheck (vw_mint v) [] [] pp) ;
+    doM_ post (mkReq lCheck (vw_mint v) [] [] pp 0) ;
     doM sts <- mint_check (vw_mint v) pp ;
     let spent := map fst (filter (fun e => snd e =? 2) (combine pp sts)) in
     doM_ eff eDelPending ;
@@ -898,15 +933,13 @@ Definition reclaim_at (vr : variant) (i : Z) (v0 : view) : M unit :=
   let pp := pending_at x v0 in
   if (Z.of_nat (length pp) =? 0) then ret tt
   else
-    doM_ post (mkReq lCheck (vw_mint v0) [] [] pp) ;
+    doM_ post (mkReq lCheck (vw_mint v0) [] [] pp 0) ;
     doM sts <- mint_check (vw_mint v0) pp ;
     let unspent := map (fun e => strip_dleq (fst e)) (filter (fun e => snd e =? 0) (combine pp sts)) in
     if (Z.of_nat (length unspent) =? 0) then ret tt
     else
       doM v <- the_view i (vw_mint v0) ;
-      doM outs <- swap_in vr i v unspent ;
-      doM_ inc_counter i (vw_mint v) (vw_act v) (Z.of_nat (length outs)) ;
-      doM_ save_proofs i outs ;
+      doM_ swap_store vr i v unspent ;
       doM_ eff eDelPending ;
       upd_wallet i (fun x => w_set_pend x (filter (fun e => negb (mem_proof (fst e) unspent)) (w_pend x))).
 
@@ -966,12 +999,12 @@ Fixpoint restore_keyset (vr : variant) (fuel : nat) (seed m ks counter empty sto
       else
         let b := batch seed m ks counter in
         let counter1 := counter + 100 in
-        doM_ post (mkReq lRestore m [] b []) ;
+        doM_ post (mkReq lRestore m [] b [] counter) ;
         doM mt <- get_mint m ;
         let found := flat_map (fun p => match signed_amount mt p with Some q => [q] | None => [] end) b in
         if (Z.of_nat (length found) =? 0) then restore_keyset vr f seed m ks counter1 (empty + 1) stored acc accp
         else
-          doM_ post (mkReq lCheck m [] [] found) ;
+          doM_ post (mkReq lCheck m [] [] found 0) ;
           doM sts <- mint_check m found ;
           let unspent := map fst (filter (fun e => snd e =? 0) (combine found sts)) in
           let pend := map fst (filter (fun e => snd e =? 1) (combine found sts)) in
@@ -1014,11 +1047,18 @@ Definition view_of_store (x : wallet) (m : Z) : view :=
 Definition mints_of_store (x : wallet) : list Z :=
   fold_right (fun k acc => if existsb (Z.eqb (k_mint k)) acc then acc else k_mint k :: acc) [] (w_ks x).
 (* LoadWallet on an existing directory: views from the store, then getActiveKeyset(home) *)
-Definition load_wallet (i : Z) : M unit :=
+Definition load_wallet (vr : variant) (i : Z) : M unit :=
   doM_ upd_wallet i (fun x => w_set_views x (map (view_of_store x) (Select.sortZ (mints_of_store x)))) ;
   doM x <- get_wallet i ;
   match find_view x (w_home x) with
-  | Some _ => doM_ get_active_keyset i (w_home x) ; ret tt
+  | Some v =>
+      if vw_act v <? 0 then
+        (* no keyset of the home mint is stored as active (a cut between the two SaveKeyset calls of a
+           noticed rotation): getActiveKeyset saves the zero-value keyset of loadWalletMints, the store
+           refuses it ("bucket name required") and LoadWallet fails - the wallet cannot be opened *)
+        doM_ upd_wallet i (fun x => mkW (-1 - w_home x) (w_ks x) (w_views x) (w_proofs x) (w_pend x) (w_mq x) (w_lq x)) ;
+        fail
+      else doM_ get_active_keyset vr i (w_home x) ; ret tt
   | None => add_mint i (w_home x)
   end.
 
@@ -1031,7 +1071,7 @@ Definition op_restore (vr : variant) (i : Z) : M Z :=
   doM x <- restored_wallet vr i ;
   doM_ put_wallet i x ;
   doM_ modify (fun w => set_gens w (upd_nth (Z.to_nat i) (fun g => g + 1) (gens w))) ;
-  doM_ silent (load_wallet i) ;
+  doM_ silent (load_wallet vr i) ;
   ret (sum_amt (w_proofs x)).
 
 (* Restore into an empty directory, look at it, throw it away: spendable + pending *)
@@ -1063,7 +1103,7 @@ Inductive wop :=
 
 Definition run_wop (vr : variant) (o : wop) : M Z :=
   match o with
-  | OMint i m a p => op_mint i m a p
+  | OMint i m a p => op_mint vr i m a p
   | OSend i m a f d => op_send vr i m a f d
   | OReceive i t tr => op_receive vr i t tr
   | OSendP2PK i m a f to sa => op_send_locked vr i m a f 1 to sa false
@@ -1096,7 +1136,7 @@ Definition exec_item (vr : variant) (it : Z * wop) (w : world) : R Z * world :=
   let '(k, o) := it in
   let w0 := set_outcome (set_run w (if 0 <? k then k - 1 else (-1)) [] [] (trace w)) 0 in
   match run_wop vr o w0 with
-  | (RCut, w1) => (RCut, snd (silent (load_wallet (wallet_of w1 o)) w1))
+  | (RCut, w1) => (RCut, snd (silent (load_wallet vr (wallet_of w1 o)) w1))
   | x => x
   end.
 
@@ -1109,10 +1149,12 @@ Fixpoint exec_all (vr : variant) (its : list (Z * wop)) (w : world) : world :=
 (* the initial world: mints with one keyset each, wallets freshly created on their home mint *)
 Definition world_of (ms : list mintst) (homes : list Z) : world :=
   mkWorld ms (map (fun h => mkW h [] [] [] [] [] []) homes) (map (fun _ => 0) homes) [] [] [] 0 0 (-1) [] [] [].
+(* LoadWallet on an empty directory: AddMint(home) *)
+Definition create_wallet (i : Z) : M unit := doM x <- get_wallet i ; add_mint i (w_home x).
 Fixpoint init_wallets (n : nat) (i : Z) (w : world) : world :=
   match n with
   | O => w
-  | S k => init_wallets k (i + 1) (snd (silent (load_wallet i) w))
+  | S k => init_wallets k (i + 1) (snd (silent (create_wallet i) w))
   end.
 Definition fresh_mint (fee pct : Z) : mintst := mkMint [fee] pct [] [] [] [] [] 0 0.
 Definition init_world (ms : list (Z * Z)) (homes : list Z) : world :=
